@@ -16,6 +16,7 @@ func init() {
 	vpRegister("vpH_C12_crash", vpH_C12_crash)
 	vpRegister("vpH_C12_compressed", vpH_C12_compressed)
 	vpRegister("vpH_C12_stale", vpH_C12_stale)
+	vpRegister("vpH_C12_restore", vpH_C12_restore)
 }
 
 // vpConcreteTree: the solver picks the shape (file / symlink / directory with
@@ -181,3 +182,35 @@ func vpH_C12_crash() {
 
 // archive/tar's statUnix looks up owner names in the user database
 func vpModelStatUnix12(fi iofs.FileInfo, h *tar.Header, doNameLookups bool) error { return nil }
+
+// vpH_C12_restore: the key already has an entry - from an earlier store of other
+// bytes (an output that is not reproducible) or a damaged one that lost a file -
+// and the outputs are stored again: a retrieve afterwards restores what was just
+// stored, in either layout.
+func vpH_C12_restore() {
+	vpFSReset()
+	vpMkDir("cache")
+	t := core.NewBuildTarget(core.BuildLabel{PackageName: "p", Name: "t"})
+	outs := []string{"o1"}
+	compress := vpNondetBool("compressed-layout")
+	newCache := func() *dirCache { return &dirCache{Dir: "cache", Compress: compress, added: map[string]uint64{}} }
+	// the earlier entry
+	vpMkDir(vpOutDir + "/o1")
+	vpMkFile(vpOutDir+"/o1/a", "first", 0o644)
+	vpMkFile(vpOutDir+"/o1/b", "b", 0o644)
+	newCache().Store(t, vpKey, outs)
+	if !compress && vpNondetBool("entry-damaged") {
+		vpRemoveAll(newCache().getPath(t, vpKey, "") + "/o1/b")
+	}
+	// the outputs now
+	vpWipeOutputs()
+	vpMkDir(vpOutDir + "/o1")
+	vpMkFile(vpOutDir+"/o1/a", "second", 0o644)
+	vpMkFile(vpOutDir+"/o1/b", "b", 0o644)
+	want := vpTreeString(vpOutDir)
+	newCache().Store(t, vpKey, outs)
+	vpWipeOutputs()
+	hit := newCache().Retrieve(t, vpKey, outs)
+	vpAssert("stored-key-hits", hit)
+	vpAssert("restores-what-was-stored-last", vpStrEq(vpTreeString(vpOutDir), want))
+}
